@@ -369,3 +369,65 @@ def fam_foreach(tier):
         g.add('foreach', b'mixed @F(mixed a) { mixed x; foreach (x in a) return 1; return 0; }', carg(v))
         g.add('foreach-pair', b'mixed @F(mixed a) { mixed x, y; foreach (x, y in a) return 1; return 0; }', carg(v))
         yield g
+
+
+# ------------------------------------------------------------------ conditions: the same test as value, if, ?:, loop test, ! and &&/||
+COND_VALS = [0, 1, -1, 7, 1 << 31, INT_MAX, INT_MIN, 0.0, 0.5, -1.5, 1e10, b'', b'a', b'ab', MB]
+
+
+@family('cond')
+def fam_cond(tier):
+    for op in ('==', '!=', '<', '<=', '>', '>='):
+        o = op.encode()
+        for a in COND_VALS:
+            for b in COND_VALS:
+                ref = ref_of(lambda: binop(op, a, b))
+                g = Group('cond', OPNAME[op], tname(a) + tname(b) + (':i64' if big(a, b) else ''), ref, b'if (' + lit(a) + b' ' + o + b' ' + lit(b) + b')')
+                pm, am, im = params([a, b], False)
+                pt, at, it = params([a, b], True)
+                T = b'a ' + o + b' b'
+                g.add('value', b'mixed @F(' + pm + b') { return ' + T + b'; }', am)
+                g.add('if', b'mixed @F(' + pm + b') { if (' + T + b') return 1; return 0; }', am)
+                g.add('if-typed', b'mixed @F(' + pt + b') { if (' + T + b') return 1; return 0; }', at)
+                g.add('if-else', b'mixed @F(' + pm + b') { int r; if (' + T + b') r = 1; else r = 0; return r; }', am)
+                g.add('if-not', b'mixed @F(' + pm + b') { if (!(' + T + b')) return 0; return 1; }', am)
+                g.add('ternary', b'mixed @F(' + pm + b') { return (' + T + b') ? 1 : 0; }', am)
+                g.add('ternary-not', b'mixed @F(' + pm + b') { return !(' + T + b') ? 0 : 1; }', am)
+                g.add('while', b'mixed @F(' + pm + b') { while (' + T + b') return 1; return 0; }', am)
+                g.add('for', b'mixed @F(' + pm + b') { for (; ' + T + b'; ) return 1; return 0; }', am)
+                g.add('do', b'mixed @F(' + pm + b') { int k = 0; do { if (k++) return 1; } while (' + T + b'); return 0; }', am)
+                g.add('while-not', b'mixed @F(' + pm + b') { while (!(' + T + b')) return 0; return 1; }', am)
+                g.add('land', b'mixed @F(' + pm + b') { return (' + T + b') && 1; }', am)
+                g.add('lor', b'mixed @F(' + pm + b') { return (' + T + b') || 0; }', am)
+                g.add('notnot', b'mixed @F(' + pm + b') { return !!(' + T + b'); }', am)
+                g.add('if-global', b'mixed @F(' + pm + b') { gm = a; gm2 = b; if (gm ' + o + b' gm2) return 1; return 0; }', am)
+                if scalar(b):
+                    TL = b'a ' + o + b' ' + lit(b)
+                    Ta = TDECL[tname(a)].encode()
+                    g.add('constcmp-if', b'mixed @F(' + Ta + b' a) { if (' + TL + b') return 1; return 0; }', carg(a))
+                    g.add('constcmp-while', b'mixed @F(' + Ta + b' a) { while (' + TL + b') return 1; return 0; }', carg(a))
+                    g.add('constcmp-value', b'mixed @F(' + Ta + b' a) { return ' + TL + b'; }', carg(a))
+                    g.add('constcmp-mixed-while', b'mixed @F(mixed a) { while (' + TL + b') return 1; return 0; }', carg(a))
+                    g.add('constcmp-mixed-if', b'mixed @F(mixed a) { if (' + TL + b') return 1; return 0; }', carg(a))
+                yield g
+    # truth value of a single operand
+    for x in COND_VALS + [[], [0], {}, {0: 0}]:
+        def r(x=x):
+            return int(truth(x))
+        g = Group('cond', 'truth', tname(x), ref_of(r), b'if (' + lit(x) + b')')
+        pm, am, im = params([x], False)
+        pt, at, it = params([x], True)
+        g.add('if', b'mixed @F(' + pm + b') { ' + im + b'if (a) return 1; return 0; }', am)
+        g.add('if-typed', b'mixed @F(' + pt + b') { ' + it + b'if (a) return 1; return 0; }', at)
+        g.add('ternary', b'mixed @F(' + pm + b') { ' + im + b'return a ? 1 : 0; }', am)
+        g.add('not', b'mixed @F(' + pm + b') { ' + im + b'return !a ? 0 : 1; }', am)
+        g.add('notnot', b'mixed @F(' + pm + b') { ' + im + b'return !!a; }', am)
+        g.add('while', b'mixed @F(' + pm + b') { ' + im + b'while (a) return 1; return 0; }', am)
+        g.add('while-not', b'mixed @F(' + pm + b') { ' + im + b'while (!a) return 0; return 1; }', am)
+        g.add('do', b'mixed @F(' + pm + b') { ' + im + b'int k = 0; do { if (k++) return 1; } while (a); return 0; }', am)
+        g.add('for', b'mixed @F(' + pm + b') { ' + im + b'for (; a; ) return 1; return 0; }', am)
+        g.add('land', b'mixed @F(' + pm + b') { ' + im + b'return (a && 1) ? 1 : 0; }', am)
+        g.add('lor', b'mixed @F(' + pm + b') { ' + im + b'return (a || 0) ? 1 : 0; }', am)
+        g.add('if-folded', b'mixed @F() { if (' + lit(x) + b') return 1; return 0; }')
+        g.add('if-global', b'mixed @F(' + pm + b') { ' + im + b'gm = a; if (gm) return 1; return 0; }', am)
+        yield g
